@@ -120,3 +120,24 @@ PROPS["C20"] = dict(
     technique="Lean 4 proof by induction over operation histories (refinement to a state-free spec) + exact model/implementation correspondence",
     assumptions=["floating-point location stays inside the raster: checked per query, not proved (needs monotonicity of round53)"],
 )
+
+PROPS["C12"] = dict(
+    harnesses=[dict(name="C12", procs_quick=2, procs_thorough=16)],
+    rule=("written sets: every one of the 512 output-mask combinations (9 flag constants incl. DISTANCE_IN and LONG_UNROLL) × capability sets (40 "
+          "quick / all 512 thorough) × arcmode × {series, exact=true, GeodesicExact} for GeodesicLine(Exact)::GenPosition, all 512 masks for "
+          "GenDirect / GenInverse of the four solvers incl. Rhumb, outputs pre-filled with distinct sentinels; values: random lines incl. polar / "
+          "meridional / multi-circuit / tiny lengths, 64+ masks each, lines with full and with minimal capabilities and GenDirect vs the full-mask "
+          "reference; arc-vs-distance, DirectLine / ArcDirectLine / InverseLine / SetDistance / SetArc third point; Rhumb with and without LONG_UNROLL. "
+          "non-trivial = at least one output written; distinct = distinct (op, arguments)"),
+    tolerances={"written sets / NaN return": "exact", "line and GenDirect values vs full mask": "bit-for-bit",
+                "GenInverse m12, M12, M21 without DISTANCE": "8 ulp + 1 nm / 4e-15", "arc vs distance": "100 nm × max(1, a12/180)"},
+    level_text=("Theorems: the mask enums have the documented bit layout (output bits 7–15 pairwise distinct, capability bits below 7, OUT_MASK/OUT_ALL "
+                "cover them); an output is written iff its bit is in outmask ∩ caps ∩ OUT_MASK and the point is locatable; the written set is monotone "
+                "and additive in the mask, contained in the request, empty (NaN return) without DISTANCE_IN in distance mode; LATITUDE, AZIMUTH and "
+                "LONG_UNROLL are always available on a line. The model is compared exactly with the implementation for every mask/capability "
+                "combination sampled (exhaustive in thorough); independence of the *values* from the mask, overload and capabilities is a "
+                "bit-for-bit oracle on the implementation."),
+    level_note="mask/captype enums of Geodesic, GeodesicExact and Rhumb regenerated from the headers each run; hand-written model of the mask logic of GenPosition/GenDirect/GenInverse",
+    technique="Lean 4 proof of the mask algebra over the extracted enums + exhaustive exact correspondence of written sets",
+    assumptions=["value independence is checked on the implementation (bit equality), not derived from a dataflow model"],
+)
